@@ -49,20 +49,20 @@ theorem readU16_enc (id : Nat) (r : Bytes) (h : id < 65536) :
   congr 2
   omega
 
-theorem takeN_append (p r : Bytes) : takeN (p ++ r) p.length = some (p, r) := by
+theorem dc_takeN_append (p r : Bytes) : takeN (p ++ r) p.length = some (p, r) := by
   simp [takeN]
 
-theorem readPropBlock_enc (p r : Bytes) (h : p.length ≤ 268435455) :
+theorem dc_readPropBlock_enc (p r : Bytes) (h : p.length ≤ 268435455) :
     readPropBlock (Spec.encProps p ++ r) = some (p, r) := by
   unfold readPropBlock Spec.encProps
   rw [encVarint_eq _ h, List.append_assoc, decode_encode_varint _ _ (by rw [MAXV]; exact h)]
-  exact takeN_append p r
+  exact dc_takeN_append p r
 
-theorem readStr_enc (s r : Bytes) (h : s.length ≤ 65535) (hu : validUtf8 s = true) :
+theorem dc_readStr_enc (s r : Bytes) (h : s.length ≤ 65535) (hu : validUtf8 s = true) :
     readStr (Spec.encStr s ++ r) = some (s, r) := by
   unfold readStr Spec.encStr
   rw [List.append_assoc, readU16_enc _ _ (by omega)]
-  simp only [takeN_append, hu, if_true]
+  simp only [dc_takeN_append, hu, if_true]
 
 /-! ## The image of a server packet in the client's `Recv` -/
 
@@ -103,7 +103,7 @@ theorem readReason_enc (t : Spec.Tail) (hwf : t.wf = true) (hlen : t.enc.length 
     simp only [Spec.Tail.wf, decide_eq_true_eq] at hwf
     have hp : props.length ≤ 268435455 := by
       have := Tail.enc_length_full rc props; omega
-    have hblk := readPropBlock_enc props [] hp
+    have hblk := dc_readPropBlock_enc props [] hp
     rw [List.append_nil] at hblk
     simp only [Spec.Tail.enc]
     have hne : ∃ x xs, Spec.encProps props = x :: xs := by
@@ -159,7 +159,7 @@ theorem accept_connAck (sp : Bool) (reason : Nat) (props : Bytes)
   obtain ⟨hlen, hr⟩ := hwf
   have hp : props.length ≤ 268435455 := by
     simp only [Spec.body, Spec.encProps, List.length_cons, List.length_append] at hlen; omega
-  have hblk := readPropBlock_enc props [] hp
+  have hblk := dc_readPropBlock_enc props [] hp
   rw [List.append_nil] at hblk
   unfold encodeServer
   have h1 : (firstByte (.connAck sp reason props)).toNat / 16 = 2 := by simp [firstByte]
@@ -186,7 +186,7 @@ theorem accept_publish (topic : Bytes) (qos : Nat) (retain dup : Bool) (id : Opt
     obtain ⟨hlen, ⟨⟨htl, hutf⟩, hq⟩, hid⟩ := hwf
     have hp : props.length ≤ 268435455 := by
       simp only [Spec.body, Spec.encProps, List.length_append] at hlen; omega
-    have hblk0 := readPropBlock_enc props [] hp
+    have hblk0 := dc_readPropBlock_enc props [] hp
     rw [List.append_nil] at hblk0
     obtain ⟨h1, h2, h3, h4⟩ := publish_header qos retain dup hq
     unfold encodeServer
@@ -201,14 +201,14 @@ theorem accept_publish (topic : Bytes) (qos : Nat) (retain dup : Bool) (id : Opt
       cases dup <;> simp_all
     subst hid
     simp only [Spec.body, List.append_assoc, List.nil_append, readBody, MT_ConnAck, MT_Publish, h2,
-      readStr_enc _ _ htl hutf, hr, hd]
-    cases payload <;> simp [hblk0, readPropBlock_enc _ _ hp]
+      dc_readStr_enc _ _ htl hutf, hr, hd]
+    cases payload <;> simp [hblk0, dc_readPropBlock_enc _ _ hp]
   | some i =>
     simp only [ServerPacket.wf, Bool.and_eq_true, decide_eq_true_eq] at hwf
     obtain ⟨hlen, ⟨⟨htl, hutf⟩, hq⟩, hq0, hid⟩ := hwf
     have hp : props.length ≤ 268435455 := by
       simp only [Spec.body, Spec.encProps, List.length_append] at hlen; omega
-    have hblk0 := readPropBlock_enc props [] hp
+    have hblk0 := dc_readPropBlock_enc props [] hp
     rw [List.append_nil] at hblk0
     obtain ⟨h1, h2, h3, h4⟩ := publish_header qos retain dup hq
     unfold encodeServer
@@ -223,8 +223,8 @@ theorem accept_publish (topic : Bytes) (qos : Nat) (retain dup : Bool) (id : Opt
       cases dup <;> simp_all
     have hq3 : qos ≠ 3 := by omega
     simp only [Spec.body, List.append_assoc, readBody, MT_ConnAck, MT_Publish, h2,
-      readStr_enc _ _ htl hutf, hr, hd, readU16_enc _ _ hid]
-    cases payload <;> simp [hblk0, hq3, hq0, readPropBlock_enc _ _ hp]
+      dc_readStr_enc _ _ htl hutf, hr, hd, readU16_enc _ _ hid]
+    cases payload <;> simp [hblk0, hq3, hq0, dc_readPropBlock_enc _ _ hp]
 
 theorem accept_ack (kind : AckKind) (id : Nat) (tail : Spec.Tail)
     (hwf : (ServerPacket.ack kind id tail).wf = true) :
@@ -260,7 +260,7 @@ theorem accept_subAck (id : Nat) (props codes : Bytes)
   rw [fromBuffer_frame _ _ _ hlen (by rw [h1]; decide)
     (by rw [h1, h2]; intro f hf; simpa [inboundFlags] using hf) (by rw [h1]; decide), h1]
   simp only [Spec.body, List.append_assoc, readBody, MT_ConnAck, MT_Publish, MT_PubAck, MT_PubRec,
-    MT_PubRel, MT_PubComp, MT_SubAck, readU16_enc _ _ hid, readPropBlock_enc _ _ hp]
+    MT_PubRel, MT_PubComp, MT_SubAck, readU16_enc _ _ hid, dc_readPropBlock_enc _ _ hp]
   cases codes <;> simp
 
 theorem accept_unsubAck (id : Nat) (props codes : Bytes)
@@ -276,7 +276,7 @@ theorem accept_unsubAck (id : Nat) (props codes : Bytes)
   rw [fromBuffer_frame _ _ _ hlen (by rw [h1]; decide)
     (by rw [h1, h2]; intro f hf; simpa [inboundFlags] using hf) (by rw [h1]; decide), h1]
   simp only [Spec.body, List.append_assoc, readBody, MT_ConnAck, MT_Publish, MT_PubAck, MT_PubRec,
-    MT_PubRel, MT_PubComp, MT_SubAck, MT_UnsubAck, readU16_enc _ _ hid, readPropBlock_enc _ _ hp]
+    MT_PubRel, MT_PubComp, MT_SubAck, MT_UnsubAck, readU16_enc _ _ hid, dc_readPropBlock_enc _ _ hp]
   cases codes <;> simp
 
 theorem accept_pingResp : fromBuffer (encodeServer .pingResp) = some .pingResp := by decide
@@ -303,7 +303,7 @@ theorem accept_disconnect (tail : Spec.Tail) (hwf : (ServerPacket.disconnect tai
     simp only [Spec.Tail.wf, decide_eq_true_eq] at htw
     have hp : props.length ≤ 268435455 := by
       have := Tail.enc_length_full rc props; omega
-    have hblk := readPropBlock_enc props [] hp
+    have hblk := dc_readPropBlock_enc props [] hp
     rw [List.append_nil] at hblk
     have hne : ∃ x xs, Spec.encProps props = x :: xs := by
       unfold Spec.encProps
@@ -553,7 +553,7 @@ theorem readStr_invalid_utf8 (s r : Bytes) (h : s.length ≤ 65535) (hu : validU
     readStr (Spec.encStr s ++ r) = none := by
   unfold readStr Spec.encStr
   rw [List.append_assoc, readU16_enc _ _ (by omega)]
-  simp only [takeN_append, hu]
+  simp only [dc_takeN_append, hu]
   simp
 
 /-! ### Trailing bytes -/
@@ -636,7 +636,7 @@ theorem reject_trailing_connAck (sp : Bool) (reason n : Nat) (props extra : Byte
     (decodeVarint_encVarint n _ hn) ?_ hne (by rw [h1]; decide)
   rw [h1]
   simp only [Spec.body, List.cons_append, readBody, MT_ConnAck, if_true, byte_toNat,
-    readPropBlock_enc _ _ hp]
+    dc_readPropBlock_enc _ _ hp]
   cases sp <;> simp [Nat.mod_eq_of_lt hr]
 
 theorem readAck_full (id rc : Nat) (props extra : Bytes) (hid : id < 65536) (hrc : rc < 256)
@@ -651,7 +651,7 @@ theorem readAck_full (id rc : Nat) (props extra : Bytes) (hid : id < 65536) (hrc
     obtain ⟨x, xs, h⟩ := encodeVarint_ne_nil props.length
     exact ⟨x, xs ++ props, by rw [h]; rfl⟩
   obtain ⟨x, xs, hx⟩ := hne
-  have hblk := readPropBlock_enc props extra hp
+  have hblk := dc_readPropBlock_enc props extra hp
   simp only [Spec.Tail.enc, List.cons_append]
   rw [hx] at hblk ⊢
   simp only [List.cons_append] at hblk
@@ -700,7 +700,7 @@ theorem reject_trailing_disconnect (rc n : Nat) (props extra : Bytes)
     obtain ⟨x, xs, h⟩ := encodeVarint_ne_nil props.length
     exact ⟨x, xs ++ props, by rw [h]; rfl⟩
   obtain ⟨x, xs, hx⟩ := hne'
-  have hblk := readPropBlock_enc props extra hp
+  have hblk := dc_readPropBlock_enc props extra hp
   refine reject_trailing _ _ _ extra n (.disconnect (some (normReason rc)) (some props))
     (decodeVarint_encVarint n _ hn) ?_ hne (by rw [h1]; decide)
   rw [h1]
